@@ -459,6 +459,42 @@ def class_level_mutables(repo):
                                              ('never mutated through an instance' if not where else
                                               'each instance gets its own in __init__/__new__/ts_props' if a in own else
                                               f'allow-listed: {allow}'))})
+    # ---- mutable default arguments that the function mutates: one object shared by every call that does not pass the argument
+    n_defaults = 0
+    for root, _d, files in os.walk(pkg):
+        for fn in sorted(files):
+            if not fn.endswith('.py'):
+                continue
+            path = os.path.join(root, fn)
+            rel = os.path.relpath(path, repo)
+            tree = ast.parse(open(path, encoding='utf8').read())
+            for f in [n for n in ast.walk(tree) if isinstance(n, (ast.FunctionDef, ast.AsyncFunctionDef))]:
+                a = f.args
+                pos = a.posonlyargs + a.args
+                pairs = list(zip(pos[len(pos) - len(a.defaults):], a.defaults)) + \
+                    [(p_, d_) for p_, d_ in zip(a.kwonlyargs, a.kw_defaults) if d_ is not None]
+                for prm, dflt in pairs:
+                    if not _is_mutable_value(dflt):
+                        continue
+                    n_defaults += 1
+                    where = []
+                    for n in ast.walk(f):
+                        base = None
+                        if isinstance(n, ast.Subscript) and isinstance(n.ctx, (ast.Store, ast.Del)):
+                            base = n.value
+                        elif isinstance(n, ast.Call) and isinstance(n.func, ast.Attribute) and n.func.attr in MUTATORS:
+                            base = n.func.value
+                        elif isinstance(n, ast.AugAssign):
+                            base = n.target.value if isinstance(n.target, ast.Subscript) else n.target
+                        while isinstance(base, ast.Subscript):
+                            base = base.value
+                        if isinstance(base, ast.Name) and base.id == prm.arg:
+                            where.append(n.lineno)
+                    out.append({'name': f'default_arg.{rel}:{f.name}.{prm.arg}',
+                                'status': 'failed' if where else 'discharged',
+                                'detail': (f'mutable default of parameter {prm.arg} (line {f.lineno}) is mutated in the body (lines {where}): '
+                                           'one object shared by all calls (and threads) that rely on the default') if where
+                                else f'mutable default of parameter {prm.arg} (line {f.lineno}) is never mutated in the body'})
     out.append({'name': 'class_attr.scan_found_attributes', 'status': 'discharged' if n_attrs >= 3 else 'undecided',
                 'detail': f'{n_attrs} class-level mutable attributes in the package'})
     return out
